@@ -449,4 +449,289 @@ def openLimits (sizes : List Nat) (limit xmlLimit : Nat) : Outcome Unit :=
   if xmlLimit > limit then .err
   else if zipAccount sizes 0 limit then .ok () else .err
 
+/-! ## style sheet, workbook view, comments, rich text, conditional formats, theme colours
+
+The sites repaired in the second round, as post-decode computations over arbitrary decoded
+values.  Every index the Go code performs is an explicit bounds test. -/
+
+/-- `xs[i]`: index an `n`-element slice with an arbitrary `Int` -/
+def inRange (i : Int) (n : Nat) : Bool := decide (0 ≤ i) && decide (i < (n : Int))
+
+/-- one component of `GetStyle`: `extractStyleCondFuncs["fill"|"border"|"font"]` and then
+`s.Fills.Fill[*xf.FillID]` (`apply` = `ApplyFill == nil || *ApplyFill`, `present` = `FillID != nil`,
+`table` = `len(s.Fills.Fill)` or `none` when `s.Fills == nil`) -/
+def xfComponent (apply present : Bool) (id : Int) (table : Option Nat) : Outcome Bool :=
+  match table with
+  | none => .ok false
+  | some n =>
+    if apply && present && decide (id ≥ 0) && decide (id < (n : Int)) then
+      (if inRange id n then .ok true else .panic)
+    else .ok false
+
+structure StyleIn where
+  idx : Int
+  /-- `len(s.CellXfs.Xf)`, `none` = `CellXfs == nil` -/
+  nXf : Option Nat
+  applyFill : Bool
+  fillPresent : Bool
+  fillId : Int
+  nFills : Option Nat
+  applyBorder : Bool
+  borderPresent : Bool
+  borderId : Int
+  nBorders : Option Nat
+  applyFont : Bool
+  fontPresent : Bool
+  fontId : Int
+  nFonts : Option Nat
+
+/-- `GetStyle`: which of fill / border / font are extracted -/
+def getStyle (i : StyleIn) : Outcome (Bool × Bool × Bool) :=
+  match i.nXf with
+  | none => .err
+  | some n =>
+    if i.idx < 0 ∨ (n : Int) ≤ i.idx then .err
+    else if ¬ inRange i.idx n then .panic   -- s.CellXfs.Xf[idx]
+    else
+      (xfComponent i.applyFill i.fillPresent i.fillId i.nFills).bind fun f =>
+      (xfComponent i.applyBorder i.borderPresent i.borderId i.nBorders).bind fun b =>
+      (xfComponent i.applyFont i.fontPresent i.fontId i.nFonts).bind fun n => .ok (f, b, n)
+
+/-- `getActiveSheetID`: `ids` are the sheetId attributes of `<sheets>`, in order -/
+def activeSheetID (hasView : Bool) (activeTab : Int) (ids : List Int) : Outcome Int :=
+  let fallback : Outcome Int :=
+    if ids.length ≥ 1 then (match ids[0]? with | some id => .ok id | none => .panic) else .ok 0
+  if hasView then
+    if activeTab ≥ 0 ∧ (ids.length : Int) > activeTab then
+      match idx? ids activeTab with   -- wb.Sheets.Sheet[activeTab]
+      | none => .panic
+      | some k => match ids[k]? with
+        | some id => if id ≠ 0 then .ok id else fallback
+        | none => .panic
+    else fallback
+  else fallback
+
+/-- `GetActiveSheetIndex`: position of the active sheet id in the sheet list (0 when absent) -/
+def activeSheetIndex (hasView : Bool) (activeTab : Int) (ids : List Int) : Outcome Nat :=
+  (activeSheetID hasView activeTab ids).bind fun id => .ok ((ids.findIdx? (· = id)).getD 0)
+
+inductive FontName where
+  | name | empty
+  deriving Repr, DecidableEq
+
+/-- `readDefaultFont` + `GetDefaultFont`: `nFonts` = `len(s.Fonts.Font)` (`none` = `Fonts == nil`),
+`firstNil` = `Font[0] == nil`, `hasName` = `font.Name != nil`, `hasVal` = `font.Name.Val != nil` -/
+def getDefaultFont (nFonts : Option Nat) (firstNil hasName hasVal : Bool) : Outcome FontName :=
+  match nFonts with
+  | none => .err
+  | some n =>
+    if n = 0 then .err
+    else if ¬ inRange 0 n then .panic          -- s.Fonts.Font[0]
+    else if firstNil then .err
+    else if !hasName || !hasVal then .ok .empty
+    else if hasName && hasVal then .ok .name   -- *font.Name.Val
+    else .panic
+
+/-- `ThemeColor`: the three slices `baseColor[:2]`, `[2:4]`, `[4:6]` -/
+def themeColor (len : Nat) (tintZero : Bool) : Outcome Bool :=
+  if tintZero ∨ len < 6 then .ok false
+  else if ¬ (sliceOK len 0 2 ∧ sliceOK len 2 4 ∧ sliceOK len 4 6) then .panic
+  else .ok true
+
+/-- `GetComments`: `cmts.Authors.Author[cmt.AuthorID]` -/
+def commentAuthor (authorId : Int) (nAuthors : Nat) : Outcome (Option Nat) :=
+  if authorId ≥ 0 ∧ authorId < (nAuthors : Int) then
+    (if inRange authorId nAuthors then .ok (some authorId.toNat) else .panic)
+  else .ok none
+
+/-- `getCellRichText`: one run; `hasT` = `v.T != nil`; result = whether the run carries text -/
+def richRun (hasT : Bool) : Outcome Bool :=
+  if hasT then (if hasT then .ok true else .panic)   -- v.T.Val
+  else .ok false
+
+def richRuns : List Bool → Outcome (List Bool)
+  | [] => .ok []
+  | r :: rest => (richRun r).bind fun a => (richRuns rest).bind fun t => .ok (a :: t)
+
+inductive CondVal where
+  | minMax | value | none
+  deriving Repr, DecidableEq
+
+/-- `extractCondFmtCellIs`: `c.Formula[0]`, `c.Formula[1]` -/
+def condFmtCellIs (nFormula : Nat) : Outcome CondVal :=
+  if nFormula = 2 then (if inRange 0 nFormula ∧ inRange 1 nFormula then .ok .minMax else .panic)
+  else if nFormula > 0 then (if inRange 0 nFormula then .ok .value else .panic)
+  else .ok .none
+
+/-! ## merged cells -/
+
+/-- `cellInRange(cell, ref)`: `ref[0] … ref[3]` on the rectangle slice -/
+def cellInRange (col row : Int) (rect : List Int) : Outcome Bool :=
+  match rect[0]?, rect[1]?, rect[2]?, rect[3]? with
+  | some a, some b, some c, some d => .ok (decide (col ≥ a) && decide (col ≤ c) && decide (row ≥ b) && decide (row ≤ d))
+  | _, _, _, _ => .panic
+
+/-- one step of `mergeCellsParser`: `rect` is the cached rectangle slice of the merged cell
+(empty when its `ref` attribute is empty) -/
+def mergeCellHit (col row : Int) (rect : List Int) : Outcome Bool :=
+  if rect.length = 4 then cellInRange col row rect else .ok false
+
+/-- `xlsxMergeCell.Rect`: `parsed` = result of `rangeRefToCoordinates` (`none` = error); the
+rectangle is cached only when the reference is valid -/
+def rectOf (cached : Option (List Int)) (parsed : Option (List Int)) : Outcome (List Int × Option (List Int)) :=
+  match cached with
+  | some r => .ok (r, cached)
+  | none => match parsed with
+    | none => .err
+    | some r => .ok (r, some r)
+
+structure Rc where
+  x1 : Int
+  y1 : Int
+  x2 : Int
+  y2 : Int
+  deriving Repr, DecidableEq
+
+/-- `overlapRange`: greatest row and column mentioned by the merged cells -/
+def overlapRange : List Rc → Int × Int → Int × Int
+  | [], acc => acc
+  | r :: rest, (row, col) =>
+    let col1 := if r.x1 > col then r.x1 else col
+    let col2 := if r.x2 > col1 then r.x2 else col1
+    let row1 := if r.y1 > row then r.y1 else row
+    let row2 := if r.y2 > row1 then r.y2 else row1
+    overlapRange rest (row2, col2)
+
+/-- the accesses `matrix[x][y]` of `flatMergedCells` / `mergeOverlapCells` for one rectangle, on a
+matrix of `cols` × `rows`: the paint loops `x1-1 … x2-1`, `y1-1 … y2-1` (empty when unsorted) and the
+corner test `matrix[x1-1][y1-1]` -/
+def paintOK (rows cols : Int) (r : Rc) : Bool :=
+  (if r.x1 ≤ r.x2 ∧ r.y1 ≤ r.y2 then
+    decide (0 ≤ r.x1 - 1) && decide (r.x2 - 1 < cols) && decide (0 ≤ r.y1 - 1) && decide (r.y2 - 1 < rows)
+   else true) &&
+  decide (0 ≤ r.x1 - 1) && decide (r.x1 - 1 < cols) && decide (0 ≤ r.y1 - 1) && decide (r.y1 - 1 < rows)
+
+/-- `mergeOverlapCells`: size the matrix, then touch it for every rectangle -/
+def mergeMatrix (rs : List Rc) : Outcome (Int × Int) :=
+  let (rows, cols) := overlapRange rs (0, 0)
+  if rows = 0 ∨ cols = 0 then .ok (0, 0)
+  else if rows < 0 ∨ cols < 0 then .panic     -- make([][]*xlsxMergeCell, cols)
+  else if rs.all (paintOK rows cols) then .ok (rows, cols) else .panic
+
+/-! ## compound file header and stream extraction -/
+
+/-- `checkCompoundFileHeader`: `counts` = declared numbers of directory, FAT, mini FAT, DIFAT sectors -/
+def checkCfbHeader (len shift : Nat) (counts : List Nat) : Outcome Unit :=
+  if len < 512 then .err
+  else if ¬ (sliceOK len 30 32) then .panic
+  else if shift ≠ 9 ∧ shift ≠ 12 then .err
+  else if ¬ (sliceOK len 40 44 ∧ sliceOK len 44 48 ∧ sliceOK len 64 68 ∧ sliceOK len 72 76) then .panic
+  else if counts.any (fun c => decide (c > len / 2 ^ shift)) then .err
+  else .ok ()
+
+/-- `extractPartLimit`: bytes allocated for one stream whose directory entry claims `size` -/
+def extractAlloc (size : Int) (limit : Nat) : Nat :=
+  if size < 0 ∨ size > (limit : Int) then 0 else size.toNat
+
+/-! ## agile decryption -/
+
+structure AgIn where
+  infoLen : Nat
+  /-- `xml.Unmarshal` of the descriptor succeeds -/
+  xmlOK : Bool
+  /-- number of `<keyEncryptor>` elements -/
+  nKE : Nat
+  blockSize : Int
+  /-- digest length of `keyData/@hashAlgorithm`, 0 = unknown algorithm -/
+  hashLen : Nat
+  keyBits : Int
+  spinCount : Int
+  /-- `encryptedKey/@saltValue`: base64 decodes, decoded length -/
+  saltOK : Bool
+  saltLen : Nat
+  encKeyOK : Bool
+  encKeyLen : Nat
+  /-- `keyData/@saltValue` base64 decodes -/
+  kdSaltOK : Bool
+  pkgLen : Nat
+
+def aesKeyLen (n : Nat) : Bool := n == 16 || n == 24 || n == 32
+
+/-- `checkAgileEncryptionInfo` -/
+def agileCheck (i : AgIn) : Outcome Unit :=
+  if i.nKE = 0 then .err
+  else if i.blockSize ≠ 16 then .err
+  else if i.hashLen = 0 then .err
+  else if ¬ inRange 0 i.nKE then .panic      -- KeyEncryptor[0]
+  else if i.keyBits < 0 then .err
+  else if i.spinCount < 0 ∨ i.spinCount > 10000000 then .err
+  else .ok ()
+
+/-- `convertPasswdToKey`: length of the derived key -/
+def agileKeyLen (i : AgIn) : Outcome Nat :=
+  if ¬ inRange 0 i.nKE then .panic
+  else if !i.saltOK then .err
+  else
+    let keyBytes := i.keyBits / 8
+    if (i.hashLen : Int) < keyBytes then .ok (i.hashLen + 54)
+    else if (i.hashLen : Int) > keyBytes then
+      (if 0 ≤ keyBytes ∧ keyBytes ≤ (i.hashLen : Int) then .ok keyBytes.toNat else .panic)   -- key[:keyBytes]
+    else .ok i.hashLen
+
+/-- `decrypt(key, iv, input)`: `aes.NewCipher`, the length guard, then `CryptBlocks`
+(which panics unless the IV is one block and the input whole blocks) -/
+def cbcDecrypt (keyLen ivLen inputLen : Nat) : Outcome Unit :=
+  if !aesKeyLen keyLen then .err
+  else if ivLen ≠ 16 ∨ inputLen % 16 ≠ 0 then .err
+  else if ivLen = 16 ∧ inputLen % 16 = 0 then .ok () else .panic
+
+/-- `createIV`: length of the initialization vector -/
+def createIV (i : AgIn) : Outcome Nat :=
+  if !i.kdSaltOK then .err
+  else if (i.hashLen : Int) < i.blockSize then .ok (i.hashLen + 54)
+  else if (i.hashLen : Int) > i.blockSize then
+    (if 0 ≤ i.blockSize ∧ i.blockSize ≤ (i.hashLen : Int) then .ok i.blockSize.toNat else .panic)   -- iv[:BlockSize]
+  else .ok i.hashLen
+
+/-- padded length of a chunk: `len % BlockSize`, `make([]byte, BlockSize-remainder)` -/
+def padChunk (n : Nat) (blockSize : Int) : Outcome Nat :=
+  if blockSize = 0 then .panic                      -- integer divide by zero
+  else if blockSize < 0 then
+    (if (n : Int) % blockSize = 0 then .ok n else .panic)   -- negative makeslice length cannot arise: checked above
+  else
+    let r := (n : Int) % blockSize
+    if r = 0 then .ok n else .ok (n + (blockSize - r).toNat)
+
+/-- the chunk loop of `decryptPackage` from offset `e`; `fuel` bounds the iterations -/
+def pkgLoop (i : AgIn) : Nat → Nat → Outcome Unit
+  | 0, _ => .ok ()
+  | fuel + 1, e =>
+    if e < i.pkgLen then
+      let e' := if e + 4096 > i.pkgLen then i.pkgLen else e + 4096
+      let hi := if e' + 8 < i.pkgLen then e' + 8 else e'
+      if ¬ sliceOK i.pkgLen (e + 8) hi then .panic        -- input[start+offset : …]
+      else
+        (padChunk (hi - (e + 8)) i.blockSize).bind fun n =>
+        (createIV i).bind fun ivLen =>
+        (cbcDecrypt i.encKeyLen ivLen n).bind fun _ => pkgLoop i fuel e'
+    else .ok ()
+
+/-- `decryptPackage` -/
+def decryptPackage (i : AgIn) : Outcome Unit :=
+  if i.pkgLen < 8 then .err else pkgLoop i (i.pkgLen + 1) 0
+
+/-- `agileDecrypt` -/
+def agileDecrypt (i : AgIn) : Outcome Unit :=
+  if i.infoLen < 8 then .err
+  else if ¬ sliceOK i.infoLen 8 i.infoLen then .panic
+  else if !i.xmlOK then .err
+  else (agileCheck i).bind fun _ =>
+    (agileKeyLen i).bind fun keyLen =>
+      if !i.saltOK then .err
+      else if !i.encKeyOK then .err
+      else (cbcDecrypt keyLen i.saltLen i.encKeyLen).bind fun _ => decryptPackage i
+
+/-- the guard `decryptPackage` still lacks: the last chunk must leave room for the 8-byte offset -/
+def tailOK (pkgLen : Nat) : Bool := decide (pkgLen ≤ 4096) || decide (pkgLen % 4096 = 0) || decide (pkgLen % 4096 ≥ 8)
+
 end XlModel.Decode
